@@ -104,7 +104,11 @@ def check_credentials(req, realm, username=None):
                   auth.get('opaque'), opaque)
         return False
 
-    if not unquote(auth.get('uri')).endswith(req.full_path):
+    # path is decoded by the server, but the query string is not
+    full_path = req.path
+    if req.query:
+        full_path += '?' + unquote(req.query)
+    if not unquote(auth.get('uri')).endswith(full_path):
         log.error('Digest: uri %s not equal to %s',
                   auth.get('uri'), req.full_path)
         return False
